@@ -48,10 +48,9 @@ void Block::runNodeREPL(Node *node, PSC::Context &ctx) {
         } case PSC::DataType::POINTER: {
             auto &resPtr = result->get<PSC::Pointer>();
 
-            const PSC::Context *ptrCtx = resPtr.getCtx();
             PSC::Context *tempCtx = &ctx;
             bool valid = true;
-            while (valid && tempCtx != ptrCtx) {
+            while (valid && tempCtx->id != resPtr.getCtxId()) {
                 tempCtx = tempCtx->getParent();
                 if (tempCtx == nullptr) valid = false;
             }
